@@ -113,6 +113,13 @@ func c01Batch(workdir string, progs []c01Prog, depth int) {
 		split("emitted Go does not compile or run", berr)
 		return
 	}
+	// structural tie of the lowering model: Go-core of what was really emitted, per function
+	if depth == 0 {
+		gcEmitLowering(goSrc, gHelperFuncs())
+	}
+	for _, p := range progs {
+		gcEmitLowering(goSrc, p.funcs)
+	}
 	chunks := strings.Split(stdout, c01End+"\n")
 	for i, p := range progs {
 		got := "(missing)"
